@@ -1,6 +1,6 @@
 """C09 — stopping is safe at every instant: structural clauses C09-ERR, C09-POLL, C09-IMM, C09-FALLBACK
 (DESIGN.md §3)."""
-from facts import (norm, show, walk, strip_refs, deep_strip, is_call_to, callee_name, find_calls, guard_conditions,
+from facts import (option_guard, norm, show, walk, strip_refs, deep_strip, is_call_to, callee_name, find_calls, guard_conditions,
                    cmp_op, switch_edge_conds)
 import sh
 
@@ -316,9 +316,21 @@ def rule_fallback(fx, rep):
                 kind = "pv-first-or-panic-move"
         elif find_calls(e, "Tablebase::best_move"):
             kind = "tablebase"
+        elif isinstance(e, tuple) and e and e[0] == "call" and str(e[1]).endswith("search::panic_move"):
+            # `match pv.first().copied() { Some(m) => m, None => panic_move(..) }`: the fallback arm
+            pol_none = False
+            for (ge, gp, gw) in guard_conditions(search, bb, expand_named=True):
+                og = option_guard(ge, gp)
+                if og is not None and og[1] is False and find_calls(og[0], "PrincipalVariation::first"):
+                    pol_none = True
+            kind = "panic-move-arm" if pol_none else None
+        elif find_calls(e, "PrincipalVariation::first"):
+            kind = "pv-first-arm"
         detail.append(kind)
         if kind is None:
             good = False
+    if ("pv-first-arm" in detail) != ("panic-move-arm" in detail):
+        good = False
     rep.obligation(good)
     rep.sample({"rule": "C09-FALLBACK", "returns": detail})
     if not good:
